@@ -122,6 +122,27 @@ theorem fgmres_hh_optimal (m : Nat) (hmn : m + 1 < n)
     exact ⟨⟨j, Finset.mem_range.mp hj⟩, rfl⟩
   · rw [hcomb]; exact hopt
 
+theorem fgSeq_zs_succ (m : Nat) : ∃ z, (St (m+1)).zs = (St m).zs ++ [z] := ⟨_, rfl⟩
+
+include hdef hsq hsq0 hE in
+/-- … hence the residual norm does not increase from one inner iteration to the next (the spans are nested) -/
+theorem fgmres_hh_monotone (m : Nat) (hmn : m + 2 < n)
+    (hbeta : sqrt (e.a (b - A x0) (b - A x0)) ≠ 0)
+    (hnbr : ∀ i, i < m + 1 → Rent (St (m+1)).rcols i i ≠ 0)
+    (hnbr' : ∀ i, i < m + 2 → Rent (St (m+2)).rcols i i ≠ 0) :
+    ∃ xk xk', (St (m+1)).xs.getLast? = some xk ∧ (St (m+2)).xs.getLast? = some xk' ∧
+      e.en (b - A xk') ≤ e.en (b - A xk) := by
+  obtain ⟨xk, h1, h2, _⟩ := fgmres_hh_optimal A AH M e E sqrt n pre b x0 hdef hsq hsq0 hE m (by omega) hbeta hnbr
+  obtain ⟨xk', h1', _, h3'⟩ := fgmres_hh_optimal A AH M e E sqrt n pre b x0 hdef hsq hsq0 hE (m+1) hmn hbeta hnbr'
+  refine ⟨xk, xk', h1, h1', h3' xk ?_⟩
+  obtain ⟨iH, _, _⟩ := fgSeq_inv A AH M e E sqrt n pre b x0 hdef hsq hsq0 hE hbeta (m+1) (by omega)
+  obtain ⟨z, hz⟩ := fgSeq_zs_succ A AH M e E sqrt n pre b x0 (m+1)
+  refine Submodule.span_mono ?_ h2
+  rintro v ⟨j, rfl⟩
+  refine ⟨⟨j, by have := j.2; omega⟩, ?_⟩
+  show (St (m+1+1)).zs.getD j 0 = (St (m+1)).zs.getD j 0
+  rw [hz, getD_append_lt _ _ _ _ (by rw [iH.lzs]; exact j.2)]
+
 #print axioms fgmres_hh_optimal
 #print axioms fgmres_hh_directions
 end PyamgV.C07
